@@ -217,8 +217,10 @@ type sess struct {
 	evCount    int64
 	nonTrivial bool
 	faultNote  string
-	stuckInA   bool // stage A ended with a verdict on a stable state that leaves goroutines behind
-	poisoned   bool // a panic raised inside a library call was recovered by the monitor: locks may be left locked
+	evHook     client.EventHandler                                          // extra client event handler of a scenario
+	reqHook    func(request *frame.Frame, conn *client.CqlServerConnection) // called by the server's request handler for "hook…" queries
+	stuckInA   bool                                                         // stage A ended with a verdict on a stable state that leaves goroutines behind
+	poisoned   bool                                                         // a panic raised inside a library call was recovered by the monitor: locks may be left locked
 }
 
 func versionOf(v int) primitive.ProtocolVersion {
@@ -273,6 +275,9 @@ func (s *sess) open() error {
 	}
 	var handlers []client.EventHandler
 	handlers = append(handlers, func(ev *frame.Frame, conn *client.CqlClientConnection) { atomic.AddInt64(&s.evCount, 1) })
+	if s.evHook != nil {
+		handlers = append(handlers, s.evHook)
+	}
 	switch sp.Setup {
 	case "lib-lib":
 		s.server = client.NewCqlServer("127.0.0.1:0", s.creds)
@@ -409,6 +414,10 @@ func (s *sess) open() error {
 func (s *sess) requestHandlers() []client.RequestHandler {
 	answer := func(request *frame.Frame, conn *client.CqlServerConnection, _ client.RequestHandlerContext) *frame.Frame {
 		v, id := request.Header.Version, request.Header.StreamId
+		if q, ok := request.Body.Message.(*message.Query); ok && s.reqHook != nil && strings.HasPrefix(q.Query, "hook") {
+			s.reqHook(request, conn)
+			return nil
+		}
 		if q, ok := request.Body.Message.(*message.Query); ok && strings.HasPrefix(q.Query, "paged") {
 			n := 3
 			for p := 1; p < n; p++ {
@@ -795,6 +804,22 @@ func (s *sess) injectFault() {
 		s.calls = append(s.calls, watch("server.Close", func() error { return s.server.Close() }))
 	case "server.ctx":
 		s.srvCancel()
+	case "close-err+Close":
+		// the library's Close on the connection whose net.Conn reports an error from Close()
+		s.fc.armCloseErr()
+		if s.sp.Setup == "pipe-server" {
+			s.calls = append(s.calls, watch("serverConn.Close", func() error { _ = s.sc.Close(); return nil }))
+		} else {
+			s.calls = append(s.calls, watch("client.Close", func() error { _ = s.cc.Close(); return nil }))
+		}
+	case "close-err+peer-close":
+		// the peer goes away; the connection closes itself (abort -> Close) and its net.Conn reports an error from Close()
+		s.fc.armCloseErr()
+		if p := s.peer(); p != nil {
+			p.close()
+		} else {
+			s.calls = append(s.calls, watch("serverConn.Close", func() error { return s.sc.Close() }))
+		}
 	case "peer-close":
 		s.peer().close()
 	case "peer-reset":
